@@ -143,3 +143,11 @@ chk(
     "runtime monitoring: per-core execution traces of the real pass output compared with the tag-filtered trace of the original program",
     "DESIGN.md section 3 C14",
 )
+chk(
+    "C13",
+    "translation_validation",
+    "Generated multi-core functions (copies / xdma regions on the data-mover core, kernels on the compute core, shared buffers, allocations and subviews, nested loops and ifs, pre-existing barriers, alloc/use/dealloc sequences) are pushed through the real insert-sync-barrier (executed per core with the generator's role tags) and through insert-sync-barrier + dispatch-regions{nb_cores} (executed per core id); every access of a dm/compute op is logged with its core, buffer region (resolved through views) and barrier epoch. A happens-before race detector requires equal barrier counts on all cores and different epochs for any two accesses from different cores to intersecting regions with a write or dealloc - exact for barrier-only synchronisation, so one execution per core decides all interleavings of the executed control path, loop back edges included.",
+    TB + "N-core machine on the trace/buffer machines (control flow independent of buffer contents); role tags from the generator; accesses of neutral ops ignored; one known finding (dependencies through views) attributed by a predicate on the race witness plus an alias-aware counterfactual pass (vf/counterfactual/sync_alias.py). Sampled interleaving stress is not run separately: the epoch argument covers all interleavings.",
+    "runtime monitoring: per-core access/barrier event logs checked offline by a happens-before (barrier epoch) race detector",
+    "DESIGN.md section 3 C13",
+)
